@@ -60,6 +60,7 @@ class Session:
         self.I = Interp(self.mod, fmode=fmode)
         I = self.I
         if ext: I.ext.update(ext)
+        if I.ext.get('div_zero') == 'fork': I.enable_div_zero_fork()
         I.stub_prefixes = list(stub_prefixes) + ([] if keep_log else STANDING_PREFIX)
         self.harness_files = list(harness_files); self.omp = omp
         self.t_build = time.time() - t0
